@@ -80,7 +80,7 @@ func runFault(format string, compressed bool, sizes, arrival []int, k int, failC
 			// the writer still has to look at Close's result: give a late Fatal a chance
 			wait := 3 * time.Millisecond
 			if expectFatal {
-				wait = 2 * time.Second
+				wait = 10 * time.Second
 			}
 			end := time.Now().Add(wait)
 			for time.Now().Before(end) {
